@@ -96,15 +96,15 @@ Section StatInv.
     forall f x fx, In (f, (x, [], fx)) (m_samples s) ->
       keys_below (m_np s) x = true /\ veq (evalP (fst vs) x) (fst (stat W f)).
 
-  Lemma SInv_step s vs o : SInv s vs -> SInv (mstep s o) (wstep W vs s o).
+  Lemma SInv_step s vs o : SInv s vs -> linopt_dir_nonzero o = true -> SInv (mstep s o) (wstep W vs s o).
   Proof.
-    intros HI f x fx Hin.
+    intros HI Hnz f x fx Hin.
     destruct (wstep_agree W vs s o) as [Hr _]. destruct (mstep_counters s o) as [Hc _].
     assert (Hold : In (f, (x, [], fx)) (m_samples s) ->
               keys_below (m_np (mstep s o)) x = true /\ veq (evalP (fst (wstep W vs s o)) x) (fst (stat W f))).
     { intros H. destruct (HI f x fx H) as [Hk Hv]. split; [exact (keys_below_mono _ _ x Hc Hk)|].
       rewrite (evalP_agree (fst vs) _ (m_np s) x Hk Hr). exact Hv. }
-    destruct o as [|g p|g|g p gamma]; cbn [mstep m_samples] in Hin.
+    destruct o as [|g p|g|g p gamma|g dir|g p rel eps|g x0 dirs]; cbn [mstep m_samples] in Hin.
     - apply Hold, Hin.
     - apply in_app_or in Hin as [Hin|[Heq|[]]]; [apply Hold, Hin|discriminate Heq].
     - apply in_app_or in Hin as [Hin|[Heq|[]]]; [apply Hold, Hin|]. injection Heq as <- <- <-. split.
@@ -112,30 +112,53 @@ Section StatInv.
       + cbn [wstep fst evalP]. rewrite upd_same, Q2R_one. intros w.
         rewrite inner_add_l, inner_scal_l, inner_zero_l. lra.
     - apply in_app_or in Hin as [Hin|[Heq|[]]]; [apply Hold, Hin|discriminate Heq].
+    - apply in_app_or in Hin as [Hin|[Heq|[]]]; [apply Hold, Hin|].
+      cbn [linopt_dir_nonzero] in Hnz. injection Heq as _ _ Hg _. rewrite Hg in Hnz. discriminate Hnz.
+    - apply in_app_or in Hin as [Hin|[Heq|[]]]; [apply Hold, Hin|discriminate Heq].
+    - apply in_app_or in Hin as [Hin|[Heq|[]]]; [apply Hold, Hin|discriminate Heq].
   Qed.
 
-  Theorem stationary_samples_at_stat ops : forall s vs, SInv s vs -> SInv (mrun ops s) (wrun W ops s vs).
+  (** (a linear-optimization step along the zero direction would record a sample with an empty gradient
+      dictionary at a point that need not be the stationary point: excluded) *)
+  Theorem stationary_samples_at_stat ops : forall s vs,
+    forallb linopt_dir_nonzero ops = true -> SInv s vs -> SInv (mrun ops s) (wrun W ops s vs).
   Proof.
-    induction ops as [|o ops IH]; intros s vs HI; cbn [mrun fold_left wrun]; [exact HI|].
-    apply (IH (mstep s o)). apply SInv_step. exact HI.
+    induction ops as [|o ops IH]; intros s vs Hnz HI; cbn [mrun fold_left wrun]; [exact HI|].
+    cbn [forallb] in Hnz. apply andb_prop in Hnz as [Ho Hnz].
+    apply (IH (mstep s o) _ Hnz). apply SInv_step; assumption.
+  Qed.
+
+  (** worlds without a linear minimisation oracle: no such step at all *)
+  Lemma no_lmo_nonzero ops :
+    (forall f, has_lmo W f = false) -> steps_ok W ops = true -> forallb linopt_dir_nonzero ops = true.
+  Proof.
+    intros Hno. unfold steps_ok. induction ops as [|o ops IH]; cbn [forallb]; [reflexivity|].
+    intros H. apply andb_prop in H as [Ho H]. rewrite (IH H), andb_true_r.
+    destruct o as [|g p|g|g p gamma|g dir|g p rel eps|g x0 dirs]; try reflexivity. cbn [step_ok] in Ho. rewrite Hno in Ho. discriminate Ho.
   Qed.
 
   (** ... as the class generator sees them *)
   Lemma f_stat_at_stat par ops vs f sm :
+    forallb linopt_dir_nonzero ops = true ->
     In sm (f_stat (fstate_of par (mrun ops minit) f)) ->
     In sm (f_points (fstate_of par (mrun ops minit) f)) /\ s_g sm = [] /\
     veq (px (fst (wrun W ops minit vs)) sm) (fst (stat W f)).
   Proof.
-    cbn [fstate_of f_stat f_points]. intros Hin. apply filter_In in Hin as [Hin Hst].
+    cbn [fstate_of f_stat f_points]. intros Hnz Hin. apply filter_In in Hin as [Hin Hst].
     assert (Hg : s_g sm = []) by (unfold is_stationary in Hst; destruct (s_g sm); [reflexivity|discriminate]).
     split; [exact Hin|]. split; [exact Hg|].
     apply In_to_samples in Hin as (t & Ht & Ex & Eg & Ef). apply In_samples_of in Ht.
     destruct t as [[x g] fx]. cbn [fst snd] in *. rewrite Hg in Eg. subst g.
     assert (H0 : SInv minit vs) by (intros ? ? ? []).
-    destruct (stationary_samples_at_stat ops minit vs H0 f x fx Ht) as [_ Hv].
+    destruct (stationary_samples_at_stat ops minit vs Hnz H0 f x fx Ht) as [_ Hv].
     unfold px. rewrite Ex. exact Hv.
   Qed.
 End StatInv.
+
+(** what it means for [lm] to be a linear minimisation oracle of the member a world is made of: the point
+    [lm d] with the vector -d (and the value there) is a genuine sample; [hl = false]: none is claimed *)
+Definition lmo_spec {E : ips} (G : E * E * R -> Prop) (valf : E -> R) (hl : bool) (lm : E -> E) : Prop :=
+  hl = true -> forall d, G (lm d, vneg d, valf (lm d)).
 
 Section All.
   Context {E : ips}.
@@ -149,12 +172,17 @@ Section All.
     Variable hp : bool.
     Variable res : R -> E -> E.
     Hypothesis Hres : prox_spec (genuine_grad F) (dval F) hp res.
+    Variable ie : bool -> R -> E -> E.
+    Hypothesis Hie : inexact_spec (dgrad F) ie.
+    Variable hs : bool.
+    Variable ls : E -> list E -> E.
+    Hypothesis Hls : ls_spec (dgrad F) hs ls.
     Variable ops : list mop.
     Variable vs : (nat -> E) * (nat -> R).
     Hypothesis Hwf : mwf ops minit = true.
     Hypothesis Hnd : Forall op_nodup ops.
-    Let W := dfn_world F xs Hxs Hext hp res Hres.
-    Hypothesis Hpx : prox_ok W ops = true.
+    Let W := dfn_world F xs Hxs Hext hp res Hres ie Hie hs ls Hls.
+    Hypothesis Hpx : steps_ok W ops = true.
     Let rho := fst (wrun W ops minit vs).
     Let phi := snd (wrun W ops minit vs).
 
@@ -207,9 +235,9 @@ Section All.
       pose proof (mstat_f_stat par ops 0 Hin) as Hne.
       apply (c03_RsiEbFunction _ _ mu L F); try assumption;
         rewrite (start_state_recorded _ _ Hne); try assumption.
-      - intros sm Hsm. destruct (f_stat_at_stat W par ops vs 0 sm Hsm) as (_ & _ & Hv).
+      - intros sm Hsm. destruct (f_stat_at_stat W par ops vs 0 sm (no_lmo_nonzero W ops (fun _ => eq_refl) Hpx) Hsm) as (_ & _ & Hv).
         apply rsi_eb_member_veq; [exact HF|exact Hv].
-      - intros sm Hsm. destruct (f_stat_at_stat W par ops vs 0 sm Hsm) as (Hp & _ & _). exact (Hgen sm Hp).
+      - intros sm Hsm. destruct (f_stat_at_stat W par ops vs 0 sm (no_lmo_nonzero W ops (fun _ => eq_refl) Hpx) Hsm) as (Hp & _ & _). exact (Hgen sm Hp).
     Qed.
   End Dfn.
 
@@ -229,7 +257,7 @@ Section All.
     Hypothesis Hwf : mwf ops minit = true.
     Hypothesis Hnd : Forall op_nodup ops.
     Let W := fn_world F sel Hsel xs Hxs Hext hp res Hres.
-    Hypothesis Hpx : prox_ok W ops = true.
+    Hypothesis Hpx : steps_ok W ops = true.
     Let rho := fst (wrun W ops minit vs).
     Let phi := snd (wrun W ops minit vs).
 
@@ -251,7 +279,7 @@ Section All.
       destruct (run_state_genuine W par ops vs 0 Hwf Hpx Hnd) as [Hst Hgen].
       pose proof (mstat_f_stat par ops 0 Hin) as Hne.
       apply (c03_ConvexQGFunction_recorded _ _ L F); try assumption.
-      intros sm Hsm. destruct (f_stat_at_stat W par ops vs 0 sm Hsm) as (Hp & Hg & _).
+      intros sm Hsm. destruct (f_stat_at_stat W par ops vs 0 sm (no_lmo_nonzero W ops (fun _ => eq_refl) Hpx) Hsm) as (Hp & Hg & _).
       pose proof (Hgen sm Hp) as G. unfold sval, pg in G. rewrite Hg in G. exact G.
     Qed.
   End Fn.
@@ -267,6 +295,10 @@ Section All.
     Variable hp : bool.
     Variable res : R -> E -> E.
     Hypothesis Hres : prox_spec (genuine_sub F) (val F) hp res.
+    (* optionally: a linear minimisation oracle, lm d a minimiser of <d, .> over dom F (F an indicator) *)
+    Variable hl : bool.
+    Variable lm : E -> E.
+    Hypothesis Hlm : lmo_spec (genuine_sub F) (val F) hl lm.
 
     (** genuine provided the point is in the domain *)
     Definition pgen (t : E * E * R) : Prop := dom F (fst (fst t)) -> genuine_sub F t.
@@ -288,13 +320,16 @@ Section All.
       mkW (fun _ x => (sel x, val F x)) (fun _ t => pgen t) (fun _ => (xs, val F xs))
           pfn_orc_genuine pfn_stat_genuine pfn_gen_veq pfn_gen_xveq
           (fun _ => hp) (fun _ => res) (fun _ gamma x0 => val F (res gamma x0))
-          (fun _ gamma x0 H Hg _ => Hres H gamma x0 Hg).
+          (fun _ gamma x0 H Hg _ => Hres H gamma x0 Hg)
+          (fun _ => hl) (fun _ d => (lm d, val F (lm d))) (fun _ d H _ => Hlm H d)
+          (fun f _ _ x => sel x) (exact_inexact_bound (fun _ x => (sel x, val F x)))
+          (fun _ => false) (fun _ x0 _ => x0) (no_ls _ _).
 
     Variable ops : list mop.
     Variable vs : (nat -> E) * (nat -> R).
     Hypothesis Hwf : mwf ops minit = true.
     Hypothesis Hnd : Forall op_nodup ops.
-    Hypothesis Hpx : prox_ok pfn_world ops = true.
+    Hypothesis Hpx : steps_ok pfn_world ops = true.
     Let rho := fst (wrun pfn_world ops minit vs).
     Let phi := snd (wrun pfn_world ops minit vs).
 
@@ -366,11 +401,14 @@ Section All.
       mkW (fun _ x => (sel x, sigma x)) (fun _ t => genuine_support C sigma t) (fun _ => (xs, sigma xs))
           sup_orc_genuine sup_stat_genuine sup_gen_veq sup_gen_xveq
           (fun _ => hp) (fun _ => res) (fun _ gamma x0 => sigma (res gamma x0))
-          (fun _ gamma x0 H Hg => Hres H gamma x0 Hg).
+          (fun _ gamma x0 H Hg => Hres H gamma x0 Hg)
+          (fun _ => false) (fun _ d => (d, 0)) (no_lmo _ _)
+          (fun f _ _ x => fst ((fun _ x => (sel x, sigma x)) f x)) (exact_inexact_bound (fun _ x => (sel x, sigma x)))
+          (fun _ => false) (fun _ x0 _ => x0) (no_ls _ _).
 
     Theorem run_satisfies_convex_support (M : option R) (qM : Q) ops vs :
       support_member M C sigma -> (forall m, M = Some m -> Q2R qM = m) ->
-      mwf ops minit = true -> Forall op_nodup ops -> prox_ok support_world ops = true ->
+      mwf ops minit = true -> Forall op_nodup ops -> steps_ok support_world ops = true ->
       all_satisfied (fst (wrun support_world ops minit vs)) (snd (wrun support_world ops minit vs))
         (run_plan plan_ConvexSupportFunction (set_inf (inf_flag 2 M) (fstate_of (par_at 2 qM) (mrun ops minit) 0))).
     Proof.
@@ -409,13 +447,16 @@ Section All.
       mkW (fun _ x => (T x, 0)) (fun _ t => genuine_op A t) (fun _ => (xs, 0))
           graph_orc_genuine graph_stat_genuine graph_gen_veq graph_gen_xveq
           (fun _ => hp) (fun _ => res) (fun _ _ _ => 0)
-          (fun _ gamma x0 H Hg => Hres H gamma x0 Hg).
+          (fun _ gamma x0 H Hg => Hres H gamma x0 Hg)
+          (fun _ => false) (fun _ d => (d, 0)) (no_lmo _ _)
+          (fun f _ _ x => fst ((fun _ x => (T x, 0)) f x)) (exact_inexact_bound (fun _ x => (T x, 0)))
+          (fun _ => false) (fun _ x0 _ => x0) (no_ls _ _).
 
     Variable ops : list mop.
     Variable vs : (nat -> E) * (nat -> R).
     Hypothesis Hwf : mwf ops minit = true.
     Hypothesis Hnd : Forall op_nodup ops.
-    Hypothesis Hpx : prox_ok graph_world ops = true.
+    Hypothesis Hpx : steps_ok graph_world ops = true.
     Let rho := fst (wrun graph_world ops minit vs).
     Let phi := snd (wrun graph_world ops minit vs).
 
@@ -492,13 +533,16 @@ Section All.
       mkW (fun _ x => (M x, 0)) (fun _ t => genuine_lin M t) (fun _ => (vzero, 0))
           lin_orc_genuine lin_stat_genuine lin_gen_veq lin_gen_xveq
           (fun _ => hp) (fun _ => res) (fun _ _ _ => 0)
-          (fun _ gamma x0 H Hg => Hres H gamma x0 Hg).
+          (fun _ gamma x0 H Hg => Hres H gamma x0 Hg)
+          (fun _ => false) (fun _ d => (d, 0)) (no_lmo _ _)
+          (fun f _ _ x => fst ((fun _ x => (M x, 0)) f x)) (exact_inexact_bound (fun _ x => (M x, 0)))
+          (fun _ => false) (fun _ x0 _ => x0) (no_ls _ _).
 
     Variable ops : list mop.
     Variable vs : (nat -> E) * (nat -> R).
     Hypothesis Hwf : mwf ops minit = true.
     Hypothesis Hnd : Forall op_nodup ops.
-    Hypothesis Hpx : prox_ok lin_world ops = true.
+    Hypothesis Hpx : steps_ok lin_world ops = true.
     Let rho := fst (wrun lin_world ops minit vs).
     Let phi := snd (wrun lin_world ops minit vs).
 
@@ -536,7 +580,7 @@ Section All.
     Lemma pick_linear f : linear (pick f).
     Proof. unfold pick. destruct (Nat.eqb f 0); assumption. Qed.
 
-    (* no proximal operator in this world: programs contain no proximal step ([prox_ok]) *)
+    (* no proximal operator in this world: programs contain no proximal step ([steps_ok]) *)
     Lemma lin2_prox_genuine (f : nat) (gamma : R) (x0 : E) :
       false = true -> 0 < gamma -> genuine_lin (pick f) (x0, vscal (1 / gamma) (vsub x0 x0), 0).
     Proof. discriminate. Qed.
@@ -545,11 +589,14 @@ Section All.
       mkW (fun f x => (pick f x, 0)) (fun f t => genuine_lin (pick f) t) (fun _ => (vzero, 0))
           (fun f => lin_orc_genuine (pick f) f) (fun f => lin_stat_genuine (pick f) (pick_linear f) f)
           (fun f => lin_gen_veq (pick f) f) (fun f => lin_gen_xveq (pick f) (pick_linear f) f)
-          (fun _ => false) (fun _ _ x0 => x0) (fun _ _ _ => 0) lin2_prox_genuine.
+          (fun _ => false) (fun _ _ x0 => x0) (fun _ _ _ => 0) lin2_prox_genuine
+          (fun _ => false) (fun _ d => (d, 0)) (no_lmo _ _)
+          (fun f _ _ x => fst ((fun f x => (pick f x, 0)) f x)) (exact_inexact_bound (fun f x => (pick f x, 0)))
+          (fun _ => false) (fun _ x0 _ => x0) (no_ls _ _).
 
     Theorem run_satisfies_linear (L : R) (qL : Q) ops vs :
       bounded_pair L M Mt -> Q2R qL = L ->
-      mwf ops minit = true -> Forall op_nodup ops -> prox_ok lin2_world ops = true ->
+      mwf ops minit = true -> Forall op_nodup ops -> steps_ok lin2_world ops = true ->
       all_satisfied (fst (wrun lin2_world ops minit vs)) (snd (wrun lin2_world ops minit vs))
         (run_plan plan_LinearOperator (fstate_of2 (par_at 0 qL) (mrun ops minit) 0 1)).
     Proof.
